@@ -383,6 +383,10 @@ def ok_query(P, R, rule='C11.GRD.4'):
 
 def run(P, R, tier):
     ok_query(P, R)
+    # the address criterion compares the prefix length the mask parser reports
+    from . import c13
+    from ..report import Remap
+    c13.prefix_offsets(P, Remap(R, {'C13.TAB.1': 'C11.TAB.3'}))
     ok_recorded(P, R)
     H = compile_pass(P, R)
     comparator(P, R)
